@@ -63,7 +63,7 @@ Fixpoint scalar_fragment (ss : list stmt) : bool :=
   end.
 
 (* ---------------------------------------------------------------- the invariant: the static type IS the type *)
-Definition PE (t0 t : sty) : Prop := t0 = t.
+Definition PE (t0 t : sty) (_ : option Z) : Prop := t0 = t.
 Notation val_ok := (ScalarInv.val_ok sty PE).
 Notation env_ok := (ScalarInv.env_ok sty PE).
 Notation step_ok := (ScalarInv.step_ok sty PE).
